@@ -5,6 +5,7 @@ OPT = r'boost::optional<ndsize_t>\s+'
 PRINT_OPT = 'std::printf("OBS has %d\\nOBS val %llu\\n", r ? 1 : 0, r ? (unsigned long long)*r : 0ULL);'
 RET_OPT = 'return (opt_ndsize){{{has}, {val}ULL}};'
 UNITS = {
+    'toIndex': dict(file=F, locator=r'static\s+' + OPT + r'toIndex\s*\('),
     'getDataFrameIndex': dict(file=F, locator=OPT + r'getDataFrameIndex\s*\(', replay=dict(
         tu='src/Dimensions.cpp', kinds={'position': 'double', 'tick_count': 'u64', 'match': 'int'},
         driver='boost::optional<nix::ndsize_t> r = getDataFrameIndex({position}, {tick_count}, static_cast<nix::PositionMatch>({match}));\n' + PRINT_OPT,
@@ -38,6 +39,7 @@ UNITS.update({
 })
 IAX_COVERS = ['COVER-has', 'COVER-none']
 JOBS = [
+    dict(name='toIndex', bodies=['toIndex'], enforce=['toIndex'], expect_kinds=['postcondition'], timeout=300),
     dict(name='getDataFrameIndex', bodies=['getDataFrameIndex'], enforce=['getDataFrameIndex'], covers=IAX_COVERS,
          expect_kinds=['postcondition'], timeout=600),
     dict(name='getSetIndex', bodies=['getSetIndex'], enforce=['getSetIndex'], covers=IAX_COVERS,
